@@ -136,6 +136,8 @@ impl RD {
             DefVal::Bool(b) => if *b { "TRUE" } else { "FALSE" }.into(),
             DefVal::Null => "NULL".into(),
             DefVal::CurrentTimestamp => "CURRENT_TIMESTAMP".into(),
+            // a JSON document is written as the string literal of its serialised text
+            DefVal::Json(t) => self.str(&crate::ddl::json_default(t).to_string()),
             DefVal::Bytes(b) => {
                 let hex: String = b.iter().map(|x| format!("{x:02X}")).collect();
                 if self.d == Dialect::Postgres {
